@@ -352,7 +352,14 @@ func TestCampaign(t *testing.T) {
 				c.Batch = []int{rapid.IntRange(1, 5).Draw(rt, "batch")}
 			}
 			var wild string
-			c.H, wild = hgen.MaybeRename(rt, c.H, 20)
+			if rapid.IntRange(0, 29).Draw(rt, "bulk?") == 7 {
+				c.H = hgen.DrawBulk(rt, hgen.BulkCfg{MaxNH: 16, MaxNHG: 10, MaxTop: 40, MaxHops: 8, Churn: 20})
+				if c.Batch != nil {
+					c.Batch = []int{rapid.IntRange(8, 40).Draw(rt, "bigbatch")}
+				}
+			} else {
+				c.H, wild = hgen.MaybeRename(rt, c.H, 20)
+			}
 			v := runCase(c)
 			if wild != "" {
 				v.Class("renamed:" + wild)
